@@ -8,9 +8,9 @@ def S(name, src, props, defs=(), std=17, extra=(), models=None, bound=None, tier
     if isinstance(models, (list, tuple)): models = {'quick': list(models), 'thorough': list(models)}
     if bound is None: bound = {'quick': 2, 'thorough': 3}
     if isinstance(bound, int): bound = {'quick': bound, 'thorough': bound}
-    if qcap is None: qcap = {'quick': 120, 'thorough': 900}
+    if qcap is None: qcap = {'quick': 300, 'thorough': 1500}
     if isinstance(qcap, int): qcap = {'quick': qcap, 'thorough': qcap}
-    if timeout is None: timeout = {'quick': 400, 'thorough': 2700}
+    if timeout is None: timeout = {'quick': 1200, 'thorough': 5400}
     if isinstance(timeout, int): timeout = {'quick': timeout, 'thorough': timeout}
     assert not any(s['name'] == name for s in ALL), name
     ALL.append(dict(name=name, src=src, props=dict(props), defs=list(defs), std=std, extra=list(extra), models=models, bound=bound,
@@ -124,7 +124,7 @@ def tp(name, ts, final, extra=(), **kw):
 SEQ12 = lambda c: 'vf_check(ngot[%d]==2 && got[%d][0]==11 && got[%d][1]==22 && ended[%d]==1, 1)' % (c, c, c, c)
 tp('pub_close_consume', ['PUB(11);PUB(22);CLOSE()', 'auto c = t->subscribe();CONS1();CONS1();CONS1()'], SEQ12(1))
 tp('two_consumers', ['PUB(11);PUB(22);CLOSE()', 'auto c = t->subscribe();CONS1();CONS1();CONS1()', 'auto c = t->subscribe();CONS2();CONS1()'], SEQ12(1) + ';' + SEQ12(2), tiers=('thorough',))
-tp('two_consumers_one_item', ['PUB(11);CLOSE()', 'auto c = t->subscribe();CONS1();CONS1()', 'auto c = t->subscribe();CONS2()'], 'vf_check(ngot[1]==1 && got[1][0]==11 && ended[1]==1 && ngot[2]==1 && got[2][0]==11 && ended[2]==1, 1)')
+tp('two_consumers_one_item', ['PUB(11);CLOSE()', 'auto c = t->subscribe();CONS1();CONS1()', 'auto c = t->subscribe();CONS2()'], 'vf_check(ngot[1]==1 && got[1][0]==11 && ended[1]==1 && ngot[2]==1 && got[2][0]==11 && ended[2]==1, 1)', tiers=('thorough',))
 tp('batch_pub', ['PUBN2(11,22);CLOSE()', 'auto c = t->subscribe();CONS2();CONS1()'], SEQ12(1))
 tp('two_publishers', ['PUB(11)', 'PUB(22)', 'AWAIT(0);AWAIT(1);CLOSE()' , 'auto c = t->subscribe();CONS1();CONS1();CONS1()'],
    'vf_check(ngot[3]==2 && got[3][0]+got[3][1]==33 && got[3][0]!=got[3][1] && ended[3]==1, 1)', extra=['VF_T0=PUB(11);SIGNAL(0)', 'VF_T1=PUB(22);SIGNAL(1)'])
